@@ -239,6 +239,7 @@ func (m *Machine) contractCall(c *Config, call ssa.CallInstruction, callee *ssa.
 	}
 	m.bindResults(env, sig, res)
 	env.old = old
+	m.applySets(env, fc, st)
 	for _, e := range fc.Ensures {
 		g, err := m.evalBool(env, e.Expr)
 		if err != nil {
